@@ -97,6 +97,7 @@ def run(run, ix, tier):
     check_composition(run, ix, fc)
     check_eq_hash_pairing(run, ix)
     check_cmp_paths(run, ix)
+    check_int_cache_exact(run, ix)
 
 
 def analyse(ix, f, plat, summaries):
@@ -384,6 +385,49 @@ def check_cmp_paths(run, ix):
         run.fail(Finding('G-R4', CTXPY, '_mpc.__eq__', norm(last),
                          'complex equality is not the conjunction of both component equalities',
                          line=last.lineno))
+
+
+def check_int_cache_exact(run, ix):
+    """from_int(n) (no precision) serves small integers from int_cache: the
+    table must hold exact values only, i.e. never be written from a function
+    body (where a precision/rounding of some call could leak into it)"""
+    from ..cache import CacheAccesses, enclosing_stmt
+    m = ix.module(LIBMPF)
+    if not any(n == 'int_cache' for n, v, st, g in m.toplevel_assigns):
+        raise AnalysisError('int_cache vanished')
+    bad = False
+    for f in m.funcs.values():
+        acc = CacheAccesses(f, 'int_cache')
+        muts = [c for c in acc.other if c.func.attr in
+                ('update', 'setdefault', 'pop', 'clear', 'popitem')]
+        if acc.stores or muts:
+            st = acc.stores[0][0] if acc.stores else enclosing_stmt(muts[0])
+            bad = True
+            run.fail(Finding('G-R4', LIBMPF, f.qualname, norm(st),
+                             'the exact small-integer table used by from_int(n) is written from a '
+                             'function body: a value rounded by one call is later served as the '
+                             'exact integer in comparisons and hashing', line=st.lineno))
+    if not bad:
+        run.ok('G-R4', 'int_cache is built at import time only (exact)')
+    # from_int consults the table only when no precision is given
+    f = ix.func(LIBMPF, 'from_int')
+    acc = CacheAccesses(f, 'int_cache')
+    for ld in acc.loads:
+        ok = any(isinstance(a, ast.If) and norm(a.test) in ('not prec', 'prec == 0', 'not %s' % f.params[1])
+                 for a in ld_ancestors(ld))
+        if ok:
+            run.ok('G-R4', 'from_int reads int_cache only under `not prec`')
+        else:
+            run.fail(Finding('G-R4', LIBMPF, 'from_int', 'read of int_cache',
+                             'the exact table is consulted although a precision was requested',
+                             line=ld.lineno))
+
+
+def ld_ancestors(node):
+    p = getattr(node, '_parent', None)
+    while p is not None:
+        yield p
+        p = getattr(p, '_parent', None)
 
 
 def check_exact_conversions(run, f, table):
